@@ -281,6 +281,7 @@ func runRepVal(hdr Header, c any, src string) CaseResult {
 		}
 		res.Evals++
 		var verr error
+		before := dump(built[j]) // Validate must leave the instance as it found it, however it is represented
 		if pmsg := func() (msg string) {
 			defer func() {
 				if r := recover(); r != nil {
@@ -294,6 +295,16 @@ func runRepVal(hdr Header, c any, src string) CaseResult {
 				Concrete: map[string]any{"schema": json.RawMessage(text), "instance": describe(built[j]), "denotes": json.RawMessage(abs.DenJSON(vs[j]))},
 				Expected: "Validate returns, with nil or an error", Got: "panic: " + pmsg,
 				Replay: map[string]any{"hdr": map[string]any{"VS": []any{vs[j]}}, "case": map[string]any{"s": cm["s"], "exp": []any{e}}}})
+			if len(res.Failures) >= 4 {
+				break
+			}
+			continue
+		}
+		if after := dump(built[j]); after != before {
+			res.Failures = append(res.Failures, Failure{Kind: "validate-modifies-instance", Source: src, Abstract: []any{cm["s"], vs[j]},
+				Concrete: map[string]any{"schema": json.RawMessage(text), "instance_before": before, "denotes": json.RawMessage(abs.DenJSON(vs[j]))},
+				Expected: "the instance is unchanged after Validate", Got: after,
+				Replay:   map[string]any{"hdr": map[string]any{"VS": []any{vs[j]}}, "case": map[string]any{"s": cm["s"], "exp": []any{e}}}})
 			if len(res.Failures) >= 4 {
 				break
 			}
